@@ -463,14 +463,21 @@ SMOOTH = {
 }
 
 
-def build_phase(rng, lengths, gaps):
+def build_phase(rng, lengths, gaps, sharp=False):
     """Strictly increasing jittered phase on every cycle (some cycles start late / end early, i.e. are
-    not 'good' cycles, but every boundary is still a phase wrap); optional unlabelled stretches."""
+    not 'good' cycles, but every boundary is still a phase wrap); optional unlabelled stretches.
+    sharp: every other cycle of >= 8 samples is sharply non-sinusoidal - one sample-to-sample step of more than pi
+    (below the 1.5 pi cycle-boundary threshold), still a monotone phase (round 4, C14 patch 2: np.unwrap folds such a cycle)."""
     ip, cv = [], []
     for k, n in enumerate(lengths):
         lo = rng.uniform(0.0, 0.12) if rng.random() < 0.7 else rng.uniform(0.3, 0.6)
         hi = rng.uniform(TWO_PI - 0.12, TWO_PI - 1e-3) if rng.random() < 0.7 else rng.uniform(TWO_PI - 0.8, TWO_PI - 0.4)
         steps = [rng.uniform(0.5, 1.5) for _ in range(n - 1)]
+        if sharp and n >= 8 and k % 2 == 0:
+            j = rng.randrange(n - 1)
+            jump = rng.uniform(3.3, 4.3) / (hi - lo)            # fraction of the cycle's phase range taken by the one big step
+            rest = sum(s for i, s in enumerate(steps) if i != j)
+            steps[j] = rest * jump / (1.0 - jump)
         tot = sum(steps) or 1.0
         acc, ph = 0.0, [lo]
         for s in steps:
@@ -568,6 +575,10 @@ class Align(Stream):
              'quantity': {'kind': 'affine', 'a': 3.0, 'b': 1.0}},
             {'lengths': [8, 400], 'seed': 2, 'gaps': True, 'cycles': 'vector', 'npoints': 48,
              'quantity': {'kind': 'affine', 'a': -0.5, 'b': 2.0}},
+            {'lengths': [8, 40, 9], 'seed': 21, 'gaps': False, 'cycles': 'default', 'npoints': 48, 'sharp': True,
+             'quantity': {'kind': 'affine', 'a': 3.0, 'b': -1.0}, 'kind': 'linear'},
+            {'lengths': [8, 12], 'seed': 22, 'gaps': True, 'cycles': 'vector', 'npoints': 64, 'sharp': True,
+             'quantity': {'kind': 'affine', 'a': 3.0, 'b': -1.0}, 'kind': 'linear'},
             {'lengths': [2, 3], 'seed': 3, 'gaps': True, 'cycles': 'vector', 'npoints': 2,
              'quantity': {'kind': 'affine', 'a': 1.0, 'b': 0.0}},
             {'lengths': [40, 80], 'seed': 4, 'gaps': False, 'cycles': 'default', 'npoints': 64,
@@ -602,12 +613,16 @@ class Align(Stream):
                     'quantity': q, 'kind': kind}
             if fam != 'short' and rng.random() < (0.35 if cycles == 'default' else 0.15):
                 case['prior'] = rng.getrandbits(32)     # seed of the phase the arrays held during a first call
+            if fam == 'normal' and rng.random() < 0.25:
+                case['sharp'] = True                    # one step > pi inside some cycles; exactness claimed for linear quantities
+                case['quantity'] = {'kind': 'affine', 'a': rng.randint(-40, 40) / 8.0, 'b': rng.randint(-40, 40) / 4.0}
+                case['kind'] = 'linear'
             yield case
 
     def _data(self, case):
         import random
         r = random.Random(case['seed'])
-        ip, cv = build_phase(r, case['lengths'], case['gaps'])
+        ip, cv = build_phase(r, case['lengths'], case['gaps'], case.get('sharp', False))
         return ip, quantity(case, ip), cv
 
     def _prior(self, case, n):
@@ -797,7 +812,9 @@ def touched_bins(ip, e):
     for p in ip:
         for i, v in enumerate(e):
             if on_edge(p, v):
-                t.update((i - 1, i))
+                # a sample on the FIRST edge (phase 0 of a wrapped phase) has only one bin whose closure contains it: the
+                # first bin contains it under every reading, so that bin stays judged
+                t.update((i - 1, i) if i > 0 else ())
     return t
 
 
@@ -840,6 +857,8 @@ class Binning(Stream):
                     ip.append(float(rng.choice(grid[1:])) - 1e-7)                  # just below an edge: decided under every reading
                 else:
                     ip.append(rng.uniform(0, TWO_PI))
+            if rng.random() < 0.3:           # a phase ramp that starts at exactly 0: the first bin contains that sample
+                ip[rng.randrange(n)] = float(grid[0])
             ncol = rng.choice([1, 1, 1, 2])
             case = {'ip': ip, 'nbins': nbins, 'edges': edges}
             if rng.random() < 0.25:          # weighted branch (needs 2-d observations)
@@ -902,8 +921,10 @@ class Binning(Stream):
             for b in range(nb):
                 w = case.get('weights') or [1.0] * len(col)
                 # the samples bin b contains under EVERY reading: strictly between its edges
+                # (+ for the first bin the samples on its lower edge: no other bin could contain them)
                 members = [(v, wi) for p, v, wi in zip(case['ip'], col, w)
-                           if e[b] < p < e[b + 1] and not on_edge(p, e[b]) and not on_edge(p, e[b + 1])]
+                           if (e[b] < p < e[b + 1] and not on_edge(p, e[b]) and not on_edge(p, e[b + 1]))
+                           or (b == 0 and on_edge(p, e[0]))]
                 if not members:
                     continue
                 if avg[b] is None:
